@@ -488,7 +488,7 @@ func (c *Client) checkRecord(id int64, data []byte) error {
 	latest := c.latest
 	c.latestMu.Unlock()
 
-	if id >= latest.N {
+	if id < 0 || id >= latest.N {
 		return fmt.Errorf("cannot validate record %d in tree of size %d", id, latest.N)
 	}
 	hashes, err := tlog.TileHashReader(latest, &c.tileReader).ReadHashes([]int64{tlog.StoredHashIndex(0, id)})
